@@ -851,6 +851,34 @@ func c18Schedules(c *bx.Ctx) {
 	}
 }
 
+// replayC18Schedule re-explores the recorded scenario (bounds 0..2) on the instrumented build and
+// reports whether the recorded finding class fires again.
+func replayC18Schedule(rp bx.Replay) string {
+	if !InstrBuild {
+		return "(schedule findings replay on the instrumented build only: run ./verify replay with VERIF_COVERAGE=1)"
+	}
+	for _, thorough := range []bool{false, true} {
+		for _, sc := range c18Scenarios(thorough) {
+			if sc.name != rp.Value {
+				continue
+			}
+			c := bx.New("C18", "quick", 0, 1, 0, time.Time{})
+			for b := 0; b <= 2; b++ {
+				if _, bad := c18Explore(c, sc, b, 3_000_000); bad {
+					break
+				}
+			}
+			for _, f := range c.Result().Findings {
+				if f.Key == rp.Key {
+					return rp.Observed
+				}
+			}
+			return "finding " + rp.Key + " does not fire when the scenario is re-explored up to bound 2"
+		}
+	}
+	return "scenario not found: " + rp.Value
+}
+
 // ---------------------------------------------------------------- layer 3: race detector
 
 // RunRacePass is the body of the free-running pass (vcheck-race -racepass).
